@@ -171,6 +171,13 @@ class ndpoly(numpy.ndarray):  # pylint: disable=invalid-name
                 Extra arguments passed to `numpy.ndarray` constructor.
 
         """
+        exponents = numpy.asarray(exponents)
+        # keys store exponent + KEY_OFFSET in 32 bits; casting would wrap
+        limit = numpy.iinfo(numpy.uint32).max - cls.KEY_OFFSET
+        if exponents.size and not (
+            numpy.all(exponents >= 0) and numpy.all(exponents <= limit)
+        ):
+            raise ValueError(f"exponents must be between 0 and {limit}")
         exponents = numpy.array(exponents, dtype=numpy.uint32)
         if numpy.prod(exponents.shape):
             keys = (exponents + cls.KEY_OFFSET).flatten()
